@@ -510,6 +510,14 @@ var rtCases = []rtCase{
 			if err != nil {
 				continue
 			}
+			// The envelope is judged on top of the point codec (property C12): points that the point codec itself
+			// does not carry (e.g. a field key ending in a backslash built through NewPoint) are left out.
+			if pb, err := p.MarshalBinary(); err != nil {
+				continue
+			} else if q, err := models.NewPointFromBytes(pb); err != nil || q.String() != p.String() {
+				r.Count("points_left_to_c12_point_codec", 1)
+				continue
+			}
 			pts = append(pts, p)
 		}
 		in.AddPoints(pts)
@@ -1319,7 +1327,7 @@ type genPoint struct {
 }
 
 func (p genPoint) String() string {
-	return fmt.Sprintf("{name=%q tags=%q time=%d aux=%s aggregated=%d nil=%v f=%x i=%d s=%q b=%v}", p.Name, p.Tags.ID(), p.Time, showAux(p.Aux), p.Aggregated, p.Nil, math.Float64bits(p.F), p.I, p.S, p.B)
+	return fmt.Sprintf("{name=%q tags=%q time=%d aux=%s aggregated=%d nil=%v f=%x i=%d u=%d s=%q b=%v}", p.Name, p.Tags.ID(), p.Time, showAux(p.Aux), p.Aggregated, p.Nil, math.Float64bits(p.F), p.I, p.U, p.S, p.B)
 }
 
 func showAux(a []interface{}) string {
@@ -1448,6 +1456,12 @@ type streamWitness struct {
 
 // streamCase pushes one generated point stream (plus stats and trace frames) through the real encoder and reader.
 func streamCase(caseID string, typ influxql.DataType, seed int64) {
+	defer func() {
+		if e := recover(); e != nil { // the reader side runs in this goroutine
+			r.Violation("C15/fidelity/stream/"+typ.String()+"/reader-panic", caseID, fmt.Sprintf("%s point stream: reader panicked: %.300v", typ, e),
+				map[string]interface{}{"type": typ.String(), "seed": seed, "panic": fmt.Sprintf("%v\n%s", e, debug.Stack())})
+		}
+	}()
 	g := rand.New(rand.NewSource(seed))
 	n := []int{0, 1, 2, 5, 20, 200}[g.Intn(6)]
 	nAux := g.Intn(5)
@@ -1498,6 +1512,12 @@ func streamCase(caseID string, typ influxql.DataType, seed int64) {
 	childSpan.Finish()
 	remoteSpan.Finish()
 
+	// IteratorEncoder.EncodeIterator has no case for unsigned iterators on this tree; the frames an unsigned
+	// stream would consist of are then produced with the exported UnsignedPointEncoder (no stats / trace frames).
+	direct := typ == influxql.Unsigned && !unsignedViaIterator
+	if direct {
+		withTrace = false
+	}
 	pr, pw := io.Pipe()
 	encErr := make(chan error, 1)
 	go func() {
@@ -1507,6 +1527,16 @@ func streamCase(caseID string, typ influxql.DataType, seed int64) {
 				pw.CloseWithError(io.ErrClosedPipe)
 			}
 		}()
+		if direct {
+			penc := query.NewUnsignedPointEncoder(pw)
+			var err error
+			for p := src.next(); p != nil && err == nil; p = src.next() {
+				err = penc.EncodeUnsignedPoint(&query.UnsignedPoint{Name: p.Name, Tags: p.Tags, Time: p.Time, Value: p.U, Aux: p.Aux, Aggregated: p.Aggregated, Nil: p.Nil})
+			}
+			pw.CloseWithError(err)
+			encErr <- err
+			return
+		}
 		enc := query.NewIteratorEncoder(pw)
 		err := enc.EncodeIterator(in)
 		if err == nil && withTrace {
@@ -1615,7 +1645,7 @@ func streamCase(caseID string, typ influxql.DataType, seed int64) {
 		fail("missing-points", got, fmt.Sprint(n, " points"), fmt.Sprint(got, " points"))
 		return
 	}
-	if st := out.Stats(); st != src.stats {
+	if st := out.Stats(); st != src.stats && !direct {
 		fail("stats-frame", n, fmt.Sprintf("%+v", src.stats), fmt.Sprintf("%+v", st))
 		return
 	}
@@ -1649,19 +1679,21 @@ func treeSig(n *tracing.TreeNode) string {
 	return s
 }
 
-// unsignedProbe records whether the encoder accepts an unsigned iterator at all (NewReaderIterator does).
+// unsignedViaIterator: IteratorEncoder.EncodeIterator accepts an unsigned iterator (NewReaderIterator does).
+var unsignedViaIterator bool
+
+// unsignedProbe records whether the encoder accepts an unsigned iterator at all.
 func unsignedProbe() {
 	defer func() {
 		if e := recover(); e != nil {
 			r.Count("unsigned_iterator_rejected_by_encoder", 1)
-			r.Set("unsigned_stream", fmt.Sprintf("not supported by IteratorEncoder.EncodeIterator: %v", e))
+			r.Set("unsigned_stream", fmt.Sprintf("IteratorEncoder.EncodeIterator: %v; unsigned streams are checked through UnsignedPointEncoder -> NewReaderIterator", e))
 		}
 	}()
 	var buf bytes.Buffer
 	src := &srcIter{typ: influxql.Unsigned, pts: []genPoint{{Name: "m", U: 7}}}
 	if err := query.NewIteratorEncoder(&buf).EncodeIterator(unsignedSrc{src}); err == nil {
-		r.Set("unsigned_stream", "supported")
-		streamTypes = append(streamTypes, influxql.Unsigned)
+		r.Set("unsigned_stream", "supported by IteratorEncoder.EncodeIterator")
+		unsignedViaIterator = true
 	}
 }
-
